@@ -195,6 +195,8 @@ check("C17", "every transaction ends and releases the database", [
        "<=4 calls, 2 keys", "<=5 calls"),
     ob("VerifC17_RegistryCleanup", "pkg/transaction", "registry with two transactions of two connections, symbolic ages and idle times: the periodic cleanup body / CleanupConnection rolls back and unregisters exactly the expired / disconnected ones",
        "2 read-only transactions, ages < 24 h, kept 2 s away from the limits (clock margin)"),
+    ob("VerifC17_GracefulShutdown", "pkg/transaction", "registry holding one read-write transaction (with or without a buffered write) or two read-only ones is shut down: all rolled back, lock free, nothing reaches storage, handles gone, whenever the per-transaction rollback deadline fires",
+       "1-2 transactions, preemption bound 1", q=P1, no_validate=True),
     ob("VerifC17_AbandonedTxIsReaped", "pkg/engine", "a transaction begun through the registry on the real EngineFacade and abandoned: after its idle limit the cleanup body / connection cleanup rolls it back, unregisters it and frees the database lock",
        "1 transaction (read-only or read-write, with or without a buffered write), preemption bound 1", q=P1, no_validate=True, reach=("done",)),
 ], [CLOCK, LOG, "Tier B scheduler; one-shot timers fire at a scheduler-chosen point"], ["clients holding two transactions at once (excluded by the property)"])
